@@ -272,7 +272,7 @@ def kx_extend_width(params, timeout):
     n_labels = len(reindexed[0]["time"])
     if n_labels != width:
         # already in exact arithmetic (sample start=0.5, step=0.25) the result has another size
-        return {"status": "refuted", "replay_fn": "ob_width", "args": [[0.5, 0.25, 0.5], {}], "queries": 0,
+        return {"status": "refuted", "backend": kx.LAST["backend"], "replay_fn": "ob_width", "args": [[0.5, 0.25, 0.5], {}], "queries": 0,
                 "message": "extend_dim_width builds %d coordinates for width %d" % (n_labels, width),
                 "clause": "result does not have exactly `width` samples"}
     # every original sample must keep its original coordinate bit for bit (reindex matches labels exactly)
@@ -327,7 +327,11 @@ def kx_extend_dim(params, timeout):
     base = [kx.finite_between(start, -1000.0, 1000.0), kx.finite_between(step, 0.001, 1000.0),
             kx.finite_between(a, -3000.0, 3000.0), kx.finite_between(b, -3000.0, 3000.0),
             z3.fpLEQ(a.e, xs[0].e), z3.fpLEQ(xs[-1].e, b.e)]
+    base += [z3.fpLT(xs[i].e, xs[i + 1].e) for i in range(n - 1)]  # the axis is strictly increasing
     reindexed = []
+    index_minmax = (xrl.Index.min, xrl.Index.max)
+    xrl.Index.min = lambda self: self._l[0]  # sorted axis (premise above): no float comparisons needed
+    xrl.Index.max = lambda self: self._l[-1]
 
     class Stop(Exception):
         pass
@@ -364,53 +368,70 @@ def kx_extend_dim(params, timeout):
     O.np, D.np = fake_np, fake_np
     O.xr, D.xr = xrl.xarray, xrl.xarray
     O.int, O.max = kx.kx_int, kx.kx_max
+    queries = 0
+    unknown = False
+    spent = 0.0
+    npaths = 0
+    useful = 0
+    found = None
     try:
-        paths = kx.explore(run, max_paths=24, base=base, prune_timeout_ms=2000)
+        # queries are posed as the paths arrive: the first path is the one the sample (exact) arithmetic takes
+        for pc, labels in kx.explore_iter(run, max_paths=24, base=base, prune_timeout_ms=2000):
+            npaths += 1
+            if isinstance(labels, Exception) or not labels:
+                continue
+            # originals are a contiguous block: find where the first original should sit via the shadows
+            sh = [kx.shadow(x) if isinstance(x, kx.ZF) else x for x in labels]
+            try:
+                pos = sh.index(kx.shadow(xs[0]))
+            except ValueError:
+                continue
+            useful += 1
+            moved = []
+            for i in range(n):
+                if pos + i >= len(labels):
+                    break
+                lab = labels[pos + i]
+                if lab is xs[i] or (isinstance(lab, kx.ZF) and lab.e.eq(xs[i].e)):
+                    continue
+                moved.append(z3.Not(z3.fpEQ(kx.lift(lab), xs[i].e)))
+            if not moved:
+                continue
+            wanted = {"start": start, "step": step, "a": a, "b": b}
+            budget = max(5.0, (timeout - spent) / 3)
+            # the mismatch depends on the axis only: look for it first, then for a request that drives the path there
+            r = kx.solve_staged(base + pc + [z3.Or(*moved)], budget / 2, wanted, ("start", "step"))
+            queries += 1
+            spent += r["solve_s"]
+            if r["status"] != "sat":
+                r = kx.solve(base + pc + [z3.Or(*moved)], budget, wanted)
+                queries += 1
+                spent += r["solve_s"]
+            if r["status"] == "sat":
+                found = r["model"]
+                break
+            if r["status"] != "unsat":
+                unknown = True
     finally:
         O.np, O.xr, D.np, D.xr = saved[:4]
+        xrl.Index.min, xrl.Index.max = index_minmax
         for name, old in (("int", saved[4]), ("max", saved[5])):
             if old is None:
                 delattr(O, name)
             else:
                 setattr(O, name, old)
-    queries = 0
-    unknown = False
-    spent = 0.0
-    for pc, labels in paths:
-        if isinstance(labels, Exception) or not labels:
-            continue
-        # originals are a contiguous block: find where the first original should sit via the shadows
-        sh = [kx.shadow(x) if isinstance(x, kx.ZF) else x for x in labels]
-        try:
-            pos = sh.index(kx.shadow(xs[0]))
-        except ValueError:
-            continue
-        moved = []
-        for i in range(n):
-            if pos + i >= len(labels):
-                break
-            lab = labels[pos + i]
-            if lab is xs[i] or (isinstance(lab, kx.ZF) and lab.e.eq(xs[i].e)):
-                continue
-            moved.append(z3.Not(z3.fpEQ(kx.lift(lab), xs[i].e)))
-        if not moved:
-            continue
-        r = kx.solve(base + pc + [z3.Or(*moved)], max(5.0, (timeout - spent) / 3),
-                     {"start": start, "step": step, "a": a, "b": b})
-        queries += 1
-        spent += r["solve_s"]
-        if r["status"] == "sat":
-            m = r["model"]
-            return {"status": "refuted", "replay_fn": "ob_extend", "queries": queries, "paths": len(paths),
-                    "args": [[m["start"], m["step"], m["a"], m["b"], 0.5], {}], "solve_s": round(spent, 1),
-                    "message": "z3 model: an original coordinate is regenerated with another bit pattern for "
-                    "start=%r step=%r request=[%r, %r)" % (m["start"], m["step"], m["a"], m["b"]),
-                    "clause": "original sample moved or new sample not filled"}
-        if r["status"] != "unsat":
-            unknown = True
-    out = {"queries": queries, "paths": len(paths), "solve_s": round(spent, 1)}
-    if unknown:
-        out.update(status="searched", message="no IEEE counterexample found within the budget (z3: unknown)")
+    if found is not None:
+        m = found
+        return {"status": "refuted", "backend": kx.LAST["backend"], "replay_fn": "ob_extend", "queries": queries, "paths": npaths,
+                "args": [[m["start"], m["step"], m["a"], m["b"], 0.5], {}], "solve_s": round(spent, 1),
+                "message": "solver model: an original coordinate is regenerated with another bit pattern for "
+                "start=%r step=%r request=[%r, %r)" % (m["start"], m["step"], m["a"], m["b"]),
+                "clause": "original sample moved or new sample not filled"}
+    out = {"queries": queries, "paths": npaths, "solve_s": round(spent, 1)}
+    if not useful:
+        out.update(status="error", message="vacuous: no explored path reached reindex with the original axis inside")
+    elif unknown:
+        out.update(status="searched", message="no IEEE counterexample found within the budget (z3/cvc5: unknown)")
     else:
         out.update(status="confirmed", note="original labels are handed to reindex unchanged on every explored path")
     return out
@@ -451,7 +472,7 @@ def plan():
                                   q if quick else ("thorough",), twins=("ok",) if width >= 1 else ("rejected",)))
     for n in (2, 3):
         obs.append(Ob("ieee-extend-n%d" % n, kx_extend_dim, "kx", 900, dict(n=n, K=2, with_attr=True,
-                                                                            axis_style="arange"), ("thorough",), kind="py"))
+                                                                            axis_style="arange"), q if n == 3 else ("thorough",), kind="py"))
     for (n, width, position) in ((1, 8, "start"), (1, 4, "end"), (1, 12, "center"), (2, 9, "start"),
                                  (3, 6, "center"), (4, 7, "end"), (4, 6, "start")):
         obs.append(Ob("ieee-width-n%d-w%d-%s" % (n, width, position), kx_extend_width, "kx", 180,
